@@ -30,9 +30,9 @@ def showPD : Option PostData → String
   | none => "none"
   | some pd => s!"pd {hex pd.mime} {showParams pd.params} {hex pd.text}"
 
-/-- Stand-in for encoding/json strings in the driver: identity on valid UTF-8, lossy otherwise. -/
-def jenc (s : Bytes) : Bytes := s
-def jdec (s : Bytes) : Option Bytes := if utf8Valid s then some s else some [0xEF, 0xBF, 0xBD]
+/-- The JSON string coder: the concrete model of encoding/json (Model/JsonString.lean). -/
+def jenc (s : Bytes) : Bytes := jsonEncodeString s
+def jdec (s : Bytes) : Option Bytes := jsonDecodeString s
 
 abbrev St := Unit
 def init : St := ()
